@@ -7,6 +7,7 @@
 import HugrVerif.Proofs.StoreInsert
 import HugrVerif.Proofs.StoreInsertOrder
 import HugrVerif.Proofs.StoreInsertTotal
+import HugrVerif.Proofs.StoreInsertCounts
 import HugrVerif.Props.C04
 
 namespace HugrVerif.Props.C08
@@ -194,6 +195,53 @@ theorem insert_total (rootOp : Ω) (m : μ) (a b : Store Ω μ) (hs : SInv a) (h
     ∃ a' mp, insertHugr a b parent = .ok (a', mp) := by
   obtain ⟨hsb, hhb, hrb, hab⟩ := C04.reachT_inv rootOp m b hb
   exact insertHugr_succeeds a b hs hsb hhb hrb hab parent htl
+
+/-- **Output port counts are preserved exactly** (the statement's "output port counts … are preserved"): the
+    copy of every node of B has the very out-port count B records for it — `insert_hugr` stamps it when it copies
+    the node, and the link copies cannot raise it because every link of B already lies below B's counts
+    (`PortBound`, an invariant of every B built through the API). -/
+theorem out_counts_exact (a a' b : Store Ω μ) (hs : SInv a) (hpb : PortBound b) (parent : Option Nat)
+    (mp : Dict Nat Nat) (order : List Nat) (ho : hierarchyOrder b = .ok order) (hnd : order.Nodup)
+    (h : insertHugr a b parent = .ok (a', mp)) :
+    ∀ i x, Dict.get i mp = some x → ∃ db dx, getNode b i = .ok db ∧ getNode a' x = .ok dx ∧
+      dx.numOuts = db.numOuts := by
+  obtain ⟨order', s1, ho', hn, hl⟩ := insertHugr_ok a a' b parent mp h
+  rw [ho] at ho'; injection ho' with ho'; subst ho'
+  obtain ⟨hc, _⟩ := insertNodes_spec a b parent order a s1 [] [] mp (copied_init a b parent hs.free)
+    (by simp [Dict.NodupKeys]) (by simp) hnd hn
+  have hl1 : LInv s1.links := by rw [hc.links]; exact hs.links
+  obtain ⟨_, G, _, _⟩ := insertLinks_spec mp b.links.fwd s1 a' hl1 hl
+  let cap : Nat → Nat := fun j => match getNode s1 j with | .ok d => d.numOuts | .error _ => 0
+  have hcap := insertLinks_outs_cap mp cap b.links.fwd s1 a' hl
+    (by intro j d hd; simp only [cap, hd]; exact Nat.le_refl _)
+    (by
+      intro e he x hx
+      obtain ⟨_, db, ds, e1, e2, _, _, e5, _⟩ := hc.image e.1.node x hx
+      simp only [cap, e2, e5]
+      have hm : (e.1.port, e.2.port) ∈ linksList b := by
+        unfold linksList
+        exact List.mem_map.mpr ⟨e, he, rfl⟩
+      obtain ⟨⟨d, hd, h1, h2⟩, _⟩ := hpb _ hm
+      simp only [SubPort.port] at hd h1 h2
+      rw [e1] at hd; injection hd with hd; subst hd
+      unfold offsetPlusOne; omega)
+  intro i x hi
+  obtain ⟨_, db, ds, e1, e2, _, _, e5, _⟩ := hc.image i x hi
+  obtain ⟨dx, ex, gr⟩ := G.fwd x ds e2
+  refine ⟨db, dx, e1, ex, ?_⟩
+  have hle := hcap x dx ex
+  simp only [cap, e2] at hle
+  have hge := gr.outs
+  omega
+
+/-- The same for every B built through the API (no hypothesis on B's hierarchy walk or port counts). -/
+theorem out_counts_exact_reach (rootOp : Ω) (m : μ) (a a' b : Store Ω μ) (hs : SInv a) (hb : C04.ReachT rootOp m b)
+    (parent : Option Nat) (mp : Dict Nat Nat) (h : insertHugr a b parent = .ok (a', mp)) :
+    ∀ i x, Dict.get i mp = some x → ∃ db dx, getNode b i = .ok db ∧ getNode a' x = .ok dx ∧
+      dx.numOuts = db.numOuts := by
+  obtain ⟨order, _, ho, hnd, _, _⟩ := C04.hierarchy_order_exact rootOp m b hb
+  obtain ⟨hsb, _, _, _⟩ := C04.reachT_inv rootOp m b hb
+  exact out_counts_exact a a' b hs hsb.bound parent mp order ho hnd h
 
 /-- The result satisfies the store invariant again (C04), so every query on it is determined by
     the embedded multigraph. -/
